@@ -9,55 +9,56 @@ import (
 )
 
 var errNames = map[int]string{
-	query.ErrorFatal:                    "Fatal",
-	query.ErrorFieldAmbiguous:           "FieldAmbiguous",
-	query.ErrorFieldNotExist:            "FieldNotExist",
-	query.ErrorFieldNotGroupKey:         "FieldNotGroupKey",
-	query.ErrorDuplicateFieldName:       "DuplicateFieldName",
-	query.ErrorUndeclaredVariable:       "UndeclaredVariable",
-	query.ErrorVariableRedeclared:       "VariableRedeclared",
-	query.ErrorFunctionNotExist:         "FunctionNotExist",
-	query.ErrorFunctionArgumentsLength:  "FunctionArgumentsLength",
-	query.ErrorFunctionRedeclared:       "FunctionRedeclared",
-	query.ErrorSubqueryTooManyRecords:   "SubqueryTooManyRecords",
-	query.ErrorSubqueryTooManyFields:    "SubqueryTooManyFields",
-	query.ErrorCursorRedeclared:         "CursorRedeclared",
-	query.ErrorUndeclaredCursor:         "UndeclaredCursor",
-	query.ErrorCursorClosed:             "CursorClosed",
-	query.ErrorCursorOpen:               "CursorOpen",
-	query.ErrorCursorFetchLength:        "CursorFetchLength",
-	query.ErrorInvalidFetchPosition:     "InvalidFetchPosition",
-	query.ErrorTemporaryTableRedeclared: "TemporaryTableRedeclared",
-	query.ErrorUndeclaredTemporaryTable: "UndeclaredTemporaryTable",
-	query.ErrorInsertRowValueLength:     "InsertRowValueLength",
-	query.ErrorInsertSelectFieldLength:  "InsertSelectFieldLength",
-	query.ErrorUpdateFieldNotExist:      "UpdateFieldNotExist",
-	query.ErrorUpdateValueAmbiguous:     "UpdateValueAmbiguous",
-	query.ErrorReplaceValueLength:       "ReplaceValueLength",
-	query.ErrorReplaceKeyNotSet:         "ReplaceKeyNotSet",
-	query.ErrorIntegerDevidedByZero:     "IntegerDividedByZero",
-	query.ErrorFileLockTimeout:          "LockTimeout",
-	query.ErrorFileNotExist:             "FileNotExist",
-	query.ErrorFileAlreadyExist:         "FileAlreadyExist",
-	query.ErrorSyntaxError:              "SyntaxError",
-	query.ErrorInvalidLimitPercentage:   "InvalidLimitPercentage",
-	query.ErrorInvalidLimitNumber:       "InvalidLimitNumber",
-	query.ErrorInvalidOffsetNumber:      "InvalidOffsetNumber",
-	query.ErrorTableFieldLength:         "TableFieldLength",
-	query.ErrorDataParsing:              "DataParsing",
-	query.ErrorDataEncoding:             "DataEncoding",
-	query.ErrorNotGroupingRecords:       "NotGroupingRecords",
-	query.ErrorCombinedSetFieldLength:   "CombinedSetFieldLength",
-	query.ErrorStatementNotExist:        "StatementNotExist",
-	query.ErrorDuplicateStatementName:   "DuplicateStatementName",
-	query.ErrorFieldLengthNotMatch:      "FieldLengthNotMatch",
-	query.ErrorTableNotLoaded:           "TableNotLoaded",
-	query.ErrorDuplicateTableName:       "DuplicateTableName",
-	query.ErrorIO:                       "IO",
-	query.ErrorContextCanceled:          "ContextCanceled",
-	query.ErrorContextDone:              "ContextDone",
-	query.ErrorNotTable:                 "NotTable",
-	query.ErrorCommit:                   "Commit",
+	query.ErrorFatal:                         "Fatal",
+	query.ErrorFieldAmbiguous:                "FieldAmbiguous",
+	query.ErrorFieldNotExist:                 "FieldNotExist",
+	query.ErrorFieldNotGroupKey:              "FieldNotGroupKey",
+	query.ErrorDuplicateFieldName:            "DuplicateFieldName",
+	query.ErrorUndeclaredVariable:            "UndeclaredVariable",
+	query.ErrorVariableRedeclared:            "VariableRedeclared",
+	query.ErrorFunctionNotExist:              "FunctionNotExist",
+	query.ErrorFunctionArgumentsLength:       "FunctionArgumentsLength",
+	query.ErrorFunctionRedeclared:            "FunctionRedeclared",
+	query.ErrorSubqueryTooManyRecords:        "SubqueryTooManyRecords",
+	query.ErrorSubqueryTooManyFields:         "SubqueryTooManyFields",
+	query.ErrorCursorRedeclared:              "CursorRedeclared",
+	query.ErrorUndeclaredCursor:              "UndeclaredCursor",
+	query.ErrorCursorClosed:                  "CursorClosed",
+	query.ErrorCursorOpen:                    "CursorOpen",
+	query.ErrorCursorFetchLength:             "CursorFetchLength",
+	query.ErrorInvalidFetchPosition:          "InvalidFetchPosition",
+	query.ErrorTemporaryTableRedeclared:      "TemporaryTableRedeclared",
+	query.ErrorUndeclaredTemporaryTable:      "UndeclaredTemporaryTable",
+	query.ErrorInsertRowValueLength:          "InsertRowValueLength",
+	query.ErrorInsertSelectFieldLength:       "InsertSelectFieldLength",
+	query.ErrorUpdateFieldNotExist:           "UpdateFieldNotExist",
+	query.ErrorUpdateValueAmbiguous:          "UpdateValueAmbiguous",
+	query.ErrorReplaceValueLength:            "ReplaceValueLength",
+	query.ErrorReplaceKeyNotSet:              "ReplaceKeyNotSet",
+	query.ErrorIntegerDevidedByZero:          "IntegerDividedByZero",
+	query.ErrorFileLockTimeout:               "LockTimeout",
+	query.ErrorFileNotExist:                  "FileNotExist",
+	query.ErrorFileAlreadyExist:              "FileAlreadyExist",
+	query.ErrorSyntaxError:                   "SyntaxError",
+	query.ErrorInvalidLimitPercentage:        "InvalidLimitPercentage",
+	query.ErrorInvalidLimitNumber:            "InvalidLimitNumber",
+	query.ErrorInvalidOffsetNumber:           "InvalidOffsetNumber",
+	query.ErrorTableFieldLength:              "TableFieldLength",
+	query.ErrorDataParsing:                   "DataParsing",
+	query.ErrorDataEncoding:                  "DataEncoding",
+	query.ErrorNotGroupingRecords:            "NotGroupingRecords",
+	query.ErrorCombinedSetFieldLength:        "CombinedSetFieldLength",
+	query.ErrorStatementNotExist:             "StatementNotExist",
+	query.ErrorDuplicateStatementName:        "DuplicateStatementName",
+	query.ErrorFieldLengthNotMatch:           "FieldLengthNotMatch",
+	query.ErrorTableNotLoaded:                "TableNotLoaded",
+	query.ErrorDuplicateTableName:            "DuplicateTableName",
+	query.ErrorIO:                            "IO",
+	query.ErrorContextCanceled:               "ContextCanceled",
+	query.ErrorContextDone:                   "ContextDone",
+	query.ErrorNotTable:                      "NotTable",
+	query.ErrorCommit:                        "Commit",
+	query.ErrorSelectIntoQueryTooManyRecords: "SelectIntoTooManyRecords",
 }
 
 // errClass names the error of a result ("" = no error).
